@@ -411,3 +411,37 @@ func (c *Chain) deliverAsTx(msg sdk.Msg) (*sdk.Result, error) {
 // (cmd/comdex/main.go); the contract-sender guards compare bech32 strings, so
 // the harness must run under the same configuration.
 func init() { chain.SetAccountAddressPrefixes() }
+
+// HooksOnBranch runs the end-block hooks of the open block and the begin-block
+// hooks of the next block (dt later, at height `height` when non-zero) on a
+// throw-away branch of the current state. prep may modify the branch first;
+// meter replaces the context's gas meter (every store access of the hooks
+// consumes gas on it). A panic escaping the hooks is returned as an error.
+func (c *Chain) HooksOnBranch(dt time.Duration, height int64, meter sdk.GasMeter, prep func()) (ctx sdk.Context, err error) {
+	save := c.Ctx
+	cctx, _ := c.Ctx.CacheContext()
+	c.Ctx = cctx
+	defer func() { c.Ctx = save }()
+	if prep != nil {
+		prep()
+	}
+	ctx = cctx
+	if meter != nil {
+		ctx = ctx.WithGasMeter(meter)
+	}
+	defer func() {
+		if r := recover(); r != nil {
+			err = fmt.Errorf("panic escaped the block hooks: %v", r)
+		}
+	}()
+	c.App.EndBlocker(ctx, abci.RequestEndBlock{Height: c.Height})
+	h := c.header()
+	h.Height = c.Height + 1
+	if height != 0 {
+		h.Height = height
+	}
+	h.Time = c.Time.Add(dt)
+	ctx = ctx.WithBlockHeader(h).WithBlockHeight(h.Height)
+	c.App.BeginBlocker(ctx, abci.RequestBeginBlock{Header: h})
+	return ctx, nil
+}
